@@ -153,6 +153,14 @@ def _tail(stmts, make):
             new_try.handlers = new_handlers
             out.append(new_try)
             return out, ended
+        if isinstance(s, ast.With) and i == len(stmts) - 1 and any(isinstance(n, ast.Return) for n in ast.walk(s)):
+            # a with statement in tail position: 'return value' at the end of its body is 'result = value' there (the context is
+            # left right after it either way)
+            body, bret = _tail(s.body, make)
+            new_with = copy.copy(s)
+            new_with.body = body or [ast.Pass()]
+            out.append(new_with)
+            return out, bret
         if any(isinstance(n, ast.Return) for n in ast.walk(s)):
             raise NotInlinable("return inside a try / with")
         out.append(s)
